@@ -117,7 +117,7 @@ pub fn check(c: &Case, obs: &mut Obs) -> R {
     Ok(())
 }
 
-fn case_strategy() -> impl Strategy<Value = Case> {
+pub fn case_strategy() -> impl Strategy<Value = Case> {
     stmt_gen::dialect_stmt_render().prop_map(|(dialect, stmt)| Case { dialect, stmt })
 }
 
